@@ -144,7 +144,7 @@ def run(tier):
                             rid += 1; rows.append(mkrow(rid, v, shape, None, flt, rng))
                 scen.append({"meta": meta, "sql": sql, "rows": rows})
     # seeded longer batches with halves
-    for _ in range(80 if quick else 600):
+    for _ in range(80 if quick else 3000):
         L = rng.choice([4, 5, 6])
         shape = rng.choice(list(SHAPES))
         fns = rng.choice(fnsets)
@@ -158,9 +158,9 @@ def run(tier):
                 r["v"] = {"$f": v + 0.5}
             rows.append(r)
         scen.append({"meta": meta, "sql": sql, "rows": rows})
-    for _ in range(60 if quick else 600):
+    for _ in range(60 if quick else 3000):
         scen.append(mixed_query(rng, rng.choice([2, 3, 4])))
-    for _ in range(40 if quick else 400):
+    for _ in range(40 if quick else 2000):
         scen.append(shifted_query(rng, rng.choice([3, 4, 5])))
     seqfam.run_scenarios(res, scen, "TraceBatch", tag="agg")
     res.cov["exhaustive"] = not quick
